@@ -362,6 +362,36 @@ func c09Recursion(depth int) *Prog {
 	return p
 }
 
+// c09WideRecursion: narrow's recursion (an untyped constant for a uint8 parameter and nil for a slice parameter at every
+// level) with frames of 12 locals (110 deep: some 1650 stack slots) and of 5 locals (60 deep).
+func c09WideRecursion() *Prog {
+	p := &Prog{ID: "c09/wide-recursion", Pkg: "main", Main: "Main"}
+	n := v("n", TInt)
+	bq, sq := v("b", TUint8), v("s", SliceOf(TInt))
+	// wide(n, b, s): the same with larger frames, so that the frames of the recursion cross every size at
+	// which the value stack is grown with room for the locals still to be added (the arguments are converted to the
+	// declared parameter types around that point)
+	var widePr []*S
+	for _, nl := range []int{12, 5} {
+		depth := map[int]int{12: 110, 5: 60}[nl]
+		name := fmt.Sprintf("wide%d", nl)
+		body := []*S{dcl("loc", &E{K: "conv", Ty: TInt, X: bin("+", TUint8, bq, lit(TUint8, 100))})}
+		sum := bin("+", TInt, v("loc", TInt), lenOf(sq))
+		for i := 1; i < nl; i++ {
+			ln := fmt.Sprintf("l%d", i)
+			body = append(body, dcl(ln, bin("+", TInt, v("loc", TInt), lit(TInt, int64(i)))))
+			sum = bin("+", TInt, sum, v(ln, TInt))
+		}
+		body = append(body,
+			&S{K: "if", Cond: cmp("==", n, lit(TInt, 0)), Then: []*S{ret(sum)}},
+			ret(bin("+", TInt, &E{K: "call", Fn: name, Ty: TInt, NRes: 1, Args: []*E{bin("-", TInt, n, lit(TInt, 1)), lit(TUint8, 200), {K: "zero", Ty: SliceOf(TInt)}}}, sum)))
+		p.Funcs = append(p.Funcs, &Func{Name: name, Params: []string{"n", "b", "s"}, PTypes: []*Ty{TInt, TUint8, SliceOf(TInt)}, Results: []*Ty{TInt}, Body: body})
+		widePr = append(widePr, pr(sS(name), &E{K: "call", Fn: name, Ty: TInt, NRes: 1, Args: []*E{lit(TInt, int64(depth)), lit(TUint8, 200), {K: "zero", Ty: SliceOf(TInt)}}}))
+	}
+	p.Funcs = append(p.Funcs, &Func{Name: "Main", Body: widePr})
+	return p
+}
+
 // error cases (not Go programs; the property defines their outcome): wrong argument count, more
 // results requested than yielded. Each must end in an error after the output printed so far.
 func c09ErrorPrograms() []*Prog {
@@ -396,7 +426,7 @@ func c09ErrorPrograms() []*Prog {
 }
 
 func checkC09(c *Ctx) {
-	c.Rule = "signatures = every list of 0..P parameters (P=2 quick, 3 thorough) over {int, uint8, string, bool, []int, *T, func(int) int}, with and without a variadic tail, with 0..3 results; each exercised through direct call (0/1/3 surplus variadic arguments, spread), statement call, return f() wrapper, call as argument, method call, method value (receiver bound at capture), function-typed variable and parameter; constants and nil as arguments; linear recursion to depth D and tree recursion; plus error cases (wrong arity, too many results requested); plus every pair of parameter lists (0..3 fixed, with and without a variadic tail) for a function defined again on the same VM; distinct_nontrivial = (signature, call form) pairs"
+	c.Rule = "signatures = every list of 0..P parameters (P=2 quick, 3 thorough) over {int, uint8, string, bool, []int, *T, func(int) int}, with and without a variadic tail, with 0..3 results; each exercised through direct call (0/1/3 surplus variadic arguments, spread), statement call, return f() wrapper, call as argument, method call, method value (receiver bound at capture), function-typed variable and parameter; constants and nil as arguments; linear recursion to depth D (also with frames of 12 locals, 110 deep, across the growth points of the value stack) and tree recursion; plus error cases (wrong arity, too many results requested); plus every pair of parameter lists (0..3 fixed, with and without a variadic tail) for a function defined again on the same VM; distinct_nontrivial = (signature, call form) pairs"
 	c.Assumptions = []string{"MiniGo.tla is calibrated against the Go toolchain on every valid program of this check", "the error cases are not Go programs: their expected outcome (an error after the output so far) is the property's own statement"}
 	maxP := c.pick(2, 3)
 	c09Forms = 0
@@ -404,7 +434,7 @@ func checkC09(c *Ctx) {
 	forms := c09Forms
 	nsig := len(c09Signatures(maxP))
 	c.Extra["signatures"] = nsig
-	progs = append(progs, c09Recursion(c.pick(300, 450)))
+	progs = append(progs, c09Recursion(c.pick(300, 450)), c09WideRecursion())
 	progs = append(progs, c09TypedDecls(), c09VariadicTypes(), c09NamedTypes(false), c09NamedTypes(true))
 	// seeded random call-heavy programs: function literals, method values, return f(), variadics
 	r := rand.New(rand.NewSource(c.Seed))
